@@ -54,7 +54,7 @@ class Ctx:
             w = dict(f)
             w['case'] = case
             w['env'] = dict({k: os.environ.get(k) for k in ('TZ', 'LC_ALL', 'LANG', 'PYTHONHASHSEED')},
-                            optimize=int(sys.flags.optimize))
+                            optimize=int(sys.flags.optimize), shard_class=self.shard % 4)
             self.violations.append(w)
         self.cnt('violations_seen')
 
@@ -143,6 +143,16 @@ def main():
     # every temporary file of this worker (PuLP's .mps/.sol files included, which PuLP leaves behind when CBC
     # fails) lives in its own directory, removed at the end
     scratch = os.path.join(workdir, 'tmp')
+    other_device = None
+    if a.shard % 4 == 1 and not a.replay or os.environ.get('RV_TMPDIR_OTHER_DEVICE') == '1':
+        # for these workers the default temporary directory and the instance / output directories are on
+        # different file systems (rename() across them fails with EXDEV), as with a tmpfs /tmp
+        try:
+            if os.path.isdir('/dev/shm') and os.stat('/dev/shm').st_dev != os.stat(workdir).st_dev:
+                other_device = tempfile.mkdtemp(prefix='rv_tmp_', dir='/dev/shm')
+                scratch = other_device
+        except OSError:
+            other_device = None
     os.makedirs(scratch, exist_ok=True)
     os.environ['TMPDIR'] = scratch
     tempfile.tempdir = scratch
@@ -151,6 +161,11 @@ def main():
         from rv import loader
         reach = start_reach(loader.REPO)
         loader.load()
+        if a.shard % 4 == 1 or os.environ.get('RV_WARNINGS_AS_ERRORS') == '1':
+            # these workers run as under `-W error::Warning:matchingproblems...`: a warning raised from the
+            # package's own modules is an exception (warnings of PuLP / numpy keep their default handling)
+            import warnings
+            warnings.filterwarnings('error', module=r'matchingproblems(\..*)?$')
         mod = importlib.import_module('rv.props.' + a.prop.lower())
         ctx = Ctx(a.prop, a.tier, a.seed, a.shard, a.nshards, workdir)
         if a.replay:
@@ -170,6 +185,18 @@ def main():
         res.update(ctx.result())
         res['reach'] = sorted(reach) if reach is not None else None
         import time as _t
+        try:
+            from rv import engine as _en, genengine as _ge
+            for k, v in _en.PATH_SPELLINGS.items():
+                if k != 'plain':
+                    res['counters']['instance_paths_' + k] = v
+            for k, v in _ge.OUTDIR_SPELLINGS.items():
+                if k != 'plain':
+                    res['counters']['output_directories_' + k] = v
+        except Exception:
+            pass
+        res['counters']['workers_with_tmpdir_on_another_file_system'] = 1 if other_device else 0
+        res['counters']['workers_with_package_warnings_as_errors'] = 1 if (a.shard % 4 == 1 or os.environ.get('RV_WARNINGS_AS_ERRORS') == '1') else 0
         res['counters']['workers_with_asserts_compiled_out'] = 0 if __debug__ else 1
         res['counters']['workers_east_or_west_of_utc'] = 1 if _t.timezone != 0 else 0
         res['counters']['workers_with_unavailable_locale'] = 1 if os.environ.get('LC_ALL', '').startswith('de_DE') else 0
@@ -177,6 +204,8 @@ def main():
         res['crash'] = ''.join(traceback.format_exception(type(e), e, e.__traceback__))[-4000:]
     finally:
         shutil.rmtree(workdir, ignore_errors=True)
+        if other_device:
+            shutil.rmtree(other_device, ignore_errors=True)
     with open(a.out, 'w') as f:
         json.dump(res, f, default=str)
     return 0
